@@ -212,7 +212,7 @@ func main() {
 
 	nRandom, truncLimit := 60, 40
 	if cfg.Thorough() {
-		nRandom, truncLimit = 5000, 400
+		nRandom, truncLimit = 1500, 200
 	}
 	thorough = cfg.Thorough()
 	want := map[string]bool{}
@@ -263,7 +263,7 @@ func main() {
 	evalAll(cs)
 	nText := 40
 	if cfg.Thorough() {
-		nText = 1500
+		nText = 600
 	}
 	textWanted := len(want) == 0
 	for _, f := range []string{"text", "json", "jsonl", "yaml", "toml", "xml", "csv", "bson"} {
